@@ -88,12 +88,24 @@ func NewEpochsContext(spec *Spec, state BeaconState) (*EpochsContext, error) {
 	if err := epc.LoadProposers(state); err != nil {
 		return nil, err
 	}
-	if syncState, ok := state.(SyncCommitteeBeaconState); ok {
+	if syncState, ok := unwrapState(state).(SyncCommitteeBeaconState); ok {
 		if err := epc.LoadSyncCommittees(syncState); err != nil {
 			return nil, err
 		}
 	}
 	return epc, nil
+}
+
+// unwrapState returns the state that a wrapper (e.g. an upgradeable state holder, which only embeds the BeaconState
+// interface) forwards to, so that optional fork-specific interfaces are looked up on the state itself.
+func unwrapState(state BeaconState) BeaconState {
+	for {
+		w, ok := state.(interface{ Unwrap() BeaconState })
+		if !ok {
+			return state
+		}
+		state = w.Unwrap()
+	}
 }
 
 func (epc *EpochsContext) LoadShuffling(state BeaconState) error {
@@ -228,7 +240,7 @@ func (epc *EpochsContext) RotateEpochs(state BeaconState) error {
 	if err := epc.loadCurrentStake(state, indicesBounded); err != nil {
 		return err
 	}
-	if syncState, ok := state.(SyncCommitteeBeaconState); ok {
+	if syncState, ok := unwrapState(state).(SyncCommitteeBeaconState); ok {
 		// if the state has a list of sync committee pubkeys, we want to cache the indices of that sync committee
 		if epc.CurrentEpoch.Epoch%epc.Spec.EPOCHS_PER_SYNC_COMMITTEE_PERIOD == 0 {
 			// just got into the epoch, we just need to re-hydrate the EPC
